@@ -215,6 +215,7 @@ CORPUS = [
     ("self-version", "R: !record\n  fields:\n    a: int\nP: !protocol\n  sequence:\n    s: R\n", "namespace: Fz\nversions:\n  v0: .\n"),
     ("nested-generic-arguments-30-deep", "Box<T>: !record\n  fields:\n    v: T\nZ: \"" + "Box<" * 30 + "int" + ">" * 30 + "\"\nP: !protocol\n  sequence:\n    a: Z\n", None),
     ("generic-null-argument", "Box<T>: !record\n  fields:\n    v: T\nZ: !generic {name: Box, args: [null]}\n", None),
+    ("null-only-union-case", "Zz: [[null], float]\nYy: !union {a: [null], b: float}\nXx: [[null], [null]]\n", None),
     ("empty-definitions", "E: !enum\nR: !record\nP: !protocol\nA:\n", None),
 ]
 
